@@ -5,7 +5,9 @@ package otr3
 import (
 	"bytes"
 	"fmt"
+	"runtime"
 	"strings"
+	"sync"
 )
 
 // C04 — exactly-once, in-order, unchanged delivery across DH key rotation.
@@ -190,6 +192,109 @@ func verifC04Sys(id string, seed int64) *verifSys {
 	return sys
 }
 
+type c04SweepCase struct {
+	Ver  int `json:"version"`
+	Pos  int `json:"ratchet_position"`
+	Text int `json:"text"`
+	Size int `json:"fragment_size"`
+}
+
+// c04SweepEval: one text, one fragment size, at one ratchet position: delivered exactly once and unchanged
+func c04SweepEval(base *verifWorld, c c04SweepCase) *verifFinding {
+	w := base.clone()
+	A, B := w.P[0], w.P[1]
+	A.C.SetFragmentSize(uint16(c.Size))
+	t := verifC04Text(0, c.Text)
+	r := A.Send(t)
+	if r.Panic != "" || r.Err != "" {
+		return &verifFinding{"C04:fragment-sweep:send-failed", fmt.Sprintf("v%d pos %d text #%d size %d: Send failed: %s%s", c.Ver, c.Pos, c.Text, c.Size, r.Err, r.Panic)}
+	}
+	got := 0
+	for _, piece := range r.Out {
+		rr := B.Receive(piece)
+		if rr.Panic != "" {
+			return &verifFinding{"C04:fragment-sweep:panic", rr.Panic}
+		}
+		if rr.Err != "" {
+			return &verifFinding{"C04:fragment-sweep:receive-error", fmt.Sprintf("v%d pos %d text #%d (%d bytes) fragment size %d (%d pieces): Receive failed: %s", c.Ver, c.Pos, c.Text, len(t), c.Size, len(r.Out), rr.Err)}
+		}
+		if rr.HasPln {
+			got++
+			if !bytes.Equal(rr.Plain, t) {
+				return &verifFinding{"C04:fragment-sweep:altered", fmt.Sprintf("v%d pos %d text #%d size %d: delivered text differs", c.Ver, c.Pos, c.Text, c.Size)}
+			}
+		}
+	}
+	if got != 1 {
+		return &verifFinding{"C04:fragment-sweep:lost", fmt.Sprintf("v%d pos %d text #%d (%d bytes) fragment size %d (%d pieces): delivered %d times", c.Ver, c.Pos, c.Text, len(t), c.Size, len(r.Out), got)}
+	}
+	return nil
+}
+
+func c04SweepBase(seed int64, v, pos int) *verifWorld {
+	w := verifEstablished(seed, v, 0)
+	for k := 0; k < pos; k++ {
+		for i := 0; i < 2; i++ {
+			r := w.P[i].Send([]byte(fmt.Sprintf("warm-up %d/%d", k, i)))
+			w.push(i, r.Out)
+			w.deliverAll(10, nil)
+		}
+	}
+	w.P[0].Rec.take()
+	w.P[1].Rec.take()
+	return w
+}
+
+// verifC04FragSweep: every fragment size in a range × every text of the content set × several ratchet positions
+func verifC04FragSweep(r *verifReport) {
+	lo, hi := 20, 330
+	if r.Tier == "thorough" {
+		hi = 1200
+	}
+	var mu sync.Mutex
+	var wg sync.WaitGroup
+	jobs := make(chan struct {
+		base *verifWorld
+		c    c04SweepCase
+	}, 256)
+	var n, frag int64
+	for k := 0; k < runtime.NumCPU(); k++ {
+		wg.Add(1)
+		go func() {
+			defer wg.Done()
+			for j := range jobs {
+				f := c04SweepEval(j.base, j.c)
+				mu.Lock()
+				n++
+				if f != nil {
+					r.addCase("C04", f.Sig, f.Detail, j.c)
+				}
+				mu.Unlock()
+			}
+		}()
+	}
+	for _, v := range []int{3, 2} {
+		for pos := 0; pos < 3; pos++ {
+			base := c04SweepBase(r.Seed, v, pos)
+			for ti := 0; ti < 10; ti++ {
+				for s := lo; s <= hi; s++ {
+					jobs <- struct {
+						base *verifWorld
+						c    c04SweepCase
+					}{base, c04SweepCase{v, pos, ti, s}}
+					frag++
+				}
+			}
+		}
+	}
+	close(jobs)
+	wg.Wait()
+	r.Evals += n
+	r.Nontrivial += n
+	r.Extra["fragment_sweep_cases"] = n
+	r.sample(map[string]interface{}{"fragment_sweep": c04SweepCase{3, 1, 4, 77}})
+}
+
 func verifTrunc(b []byte) string {
 	if len(b) > 24 {
 		return string(b[:24]) + fmt.Sprintf("…(%dB)", len(b))
@@ -217,8 +322,18 @@ func init() {
 	verifChecks["C04"] = &verifCheck{
 		Level: "model_checking",
 		Build: verifC04Sys,
+		ReplayCase: func(cj string, seed int64) []verifFinding {
+			var c c04SweepCase
+			if jsonUnmarshal(cj, &c) != nil {
+				return nil
+			}
+			if f := c04SweepEval(c04SweepBase(seed, c.Ver, c.Pos), c); f != nil {
+				return []verifFinding{*f}
+			}
+			return nil
+		},
 		Run: func(r *verifReport) {
-			r.Rule = "every interleaving of Send/deliver steps of two parties over two FIFO queues from an established session, per-side send budget S, optional side traffic (tick→heartbeat, extra key, one SMP run); states deduplicated by exact hash of both conversations, queues and monitor; oracle: delivered list is always a prefix of the peer's sent list, equal at quiescence, no error/unreadable event"
+			r.Rule = "every interleaving of Send/deliver steps of two parties over two FIFO queues from an established session, per-side send budget S, optional side traffic (tick→heartbeat, extra key, one SMP run); states deduplicated by exact hash of both conversations, queues and monitor; oracle: delivered list is always a prefix of the peer's sent list, equal at quiescence, no error/unreadable event; plus a sweep: every fragment size 20..330 (thorough ..1200) × every text of the content set × 3 ratchet positions, sent fragmented and delivered in order: exactly once, unchanged"
 			r.Assumptions = []string{"texts come from a fixed content set at padding/encoding boundaries (lengths 1,3,17,250..257,511; bytes 0x01,0x7f,0x80,0xff, OTR-looking characters), not all contents", "virtual two-valued clock (recent/long ago)"}
 			type cfg struct {
 				v       int
@@ -234,6 +349,7 @@ func init() {
 			for _, c := range cfgs {
 				r.explore(verifC04Sys(verifC04ID(c.v, c.f, c.s, c.side), r.Seed))
 			}
+			verifC04FragSweep(r)
 		},
 	}
 }
